@@ -11,6 +11,7 @@ import (
 	"fmt"
 	"os"
 	"sort"
+	"strconv"
 	"strings"
 	"time"
 
@@ -26,7 +27,7 @@ import (
 func main() { hx.Main(run, "", nil, nil) }
 
 type op struct {
-	kind string // add upd ups rm
+	kind string // add upd ups rm | upk (UpdateKey: key-only, value not fetched) | gupk (Find+GetCurrentValue+UpdateCurrentKey)
 	key  int
 	val  persistx.Val
 }
@@ -34,6 +35,9 @@ type op struct {
 type txn struct {
 	ops    []op
 	commit bool
+	// rival: keys another transaction of the process adds (and commits) after this transaction's operations and before its
+	// commit: this transaction loses the race for the node and goes through the conflict / refetch-and-merge round
+	rival []int
 }
 
 type caseSpec struct {
@@ -69,6 +73,12 @@ func genVal(p *hx.Prng, tok *int, thorough bool) persistx.Val {
 
 func genCase(p *hx.Prng, pl persistx.Placement, slot int, thorough bool) caseSpec {
 	c := caseSpec{label: "gen", pl: pl, slot: slot}
+	// one case in three has transactions that lose the race for their node (a rival commits while they are open):
+	// the store is then one node (slot length 64 > number of keys), so that every rival write is a conflict
+	rivals := p.Chance(1, 3)
+	if rivals {
+		c.label, c.slot = "gen-rival", 64
+	}
 	keyRange := 6 + p.Intn(24)
 	ntx := 2 + p.Intn(6)
 	tok := 0
@@ -93,13 +103,29 @@ func genCase(p *hx.Prng, pl persistx.Placement, slot int, thorough bool) caseSpe
 			case shape == 9:
 				kind = []string{"add", "add", "add", "ups"}[p.Intn(4)]
 			default:
-				kind = []string{"add", "add", "upd", "upd", "ups", "rm", "rm"}[p.Intn(7)]
+				kind = []string{"add", "add", "upd", "upd", "ups", "rm", "rm", "upk", "gupk"}[p.Intn(9)]
 			}
 			o := op{kind: kind, key: k}
 			if kind != "rm" {
 				o.val = genVal(p, &tok, thorough)
 			}
 			t.ops = append(t.ops, o)
+		}
+		if rivals && i > 0 && p.Chance(1, 2) {
+			// this transaction goes through the conflict round: adds, updates, key-only updates (no removes)
+			var keep []op
+			for _, o := range t.ops {
+				if o.kind != "rm" {
+					keep = append(keep, o)
+				}
+			}
+			if len(keep) > 0 {
+				t.ops = keep
+				t.rival = []int{1000 + 10*i}
+				if p.Chance(1, 3) {
+					t.rival = append(t.rival, 1001+10*i)
+				}
+			}
 		}
 		c.txns = append(c.txns, t)
 	}
@@ -157,6 +183,27 @@ func corpus() []caseSpec {
 			{ops: []op{{"add", 10, v(1, 8)}, {"add", 20, v(2, 8)}, {"add", 30, v(3, 8)}, {"add", 40, v(4, 8)}, {"add", 50, v(5, 8)}}, commit: true},
 			{ops: []op{{"add", 25, v(6, 8)}, {"rm", 20, persistx.Val{}}}, commit: true},
 			{ops: []op{{"add", 35, v(7, 8)}, {"rm", 30, persistx.Val{}}}, commit: true},
+		}})
+	}
+	// (5) key-only updates (UpdateKey / GetCurrentValue+UpdateCurrentKey) of items in every placement state: inline
+	// (plain add), genuine out-of-node reference (written by a transaction that went through the conflict /
+	// refetch-and-merge round: a rival committed while it was open), fetched or not; the value must stay readable
+	sepC, _ := persistx.PlacementByName("sepCache")
+	for _, pl := range []persistx.Placement{inn, sep, sepC, act, actC} {
+		out = append(out, caseSpec{label: "key-only-update-of-reference", pl: pl, slot: 64, txns: []txn{
+			{ops: []op{{"add", 1, v(1, 8)}}, commit: true},
+			{ops: []op{{"add", 2, v(2, 8)}, {"add", 3, v(3, 8)}, {"upd", 1, v(4, 8)}}, commit: true, rival: []int{1000}},
+			{ops: []op{{"upk", 2, persistx.Val{}}, {"gupk", 3, persistx.Val{}}}, commit: true},
+			{ops: []op{{"upk", 1, persistx.Val{}}, {"upk", 1000, persistx.Val{}}}, commit: true},
+			{ops: []op{{"upk", 3, persistx.Val{}}, {"upd", 2, v(5, 8)}}, commit: true, rival: []int{1010}},
+			{ops: []op{{"gupk", 2, persistx.Val{}}, {"upk", 3, persistx.Val{}}}, commit: false},
+			{ops: []op{{"upk", 2, persistx.Val{}}}, commit: true},
+		}})
+		out = append(out, caseSpec{label: "key-only-update-inline", pl: pl, slot: 4, txns: []txn{
+			{ops: []op{{"add", 1, v(1, 8)}, {"add", 2, v(2, 8)}}, commit: true},
+			{ops: []op{{"upk", 1, persistx.Val{}}, {"gupk", 2, persistx.Val{}}}, commit: true},
+			{ops: []op{{"upd", 1, v(3, 8)}}, commit: true},
+			{ops: []op{{"upk", 1, persistx.Val{}}, {"add", 3, v(4, 8)}, {"upk", 3, persistx.Val{}}}, commit: true},
 		}})
 	}
 	for _, pl := range []persistx.Placement{inn, sep} {
@@ -274,6 +321,9 @@ func (r *runner) runCase(c caseSpec) error {
 	if r.rmTracked {
 		hdr += " rmtracked=1"
 	}
+	if os.Getenv("VERIF_C19_HOISTED") == "1" {
+		hdr += " hoisted=1" // triage knob: run the model's variant of the seeded change C10c (see Sop.Model.ValuePlacementX)
+	}
 	s.BeginCase(hdr)
 	s.Hit("place:" + c.pl.Name)
 	s.Hit(fmt.Sprintf("slot:%d", c.slot))
@@ -297,9 +347,14 @@ func (r *runner) runCase(c caseSpec) error {
 	ref := &reference{committed: map[int]persistx.Val{}}
 	mem := inmemory.NewBtree[int, string](true)
 	nontrivial := false
+	damaged := false // an earlier finding of this case left an item whose value no longer loads
 
 	for ti, tx := range c.txns {
-		t, err := e.NewTxn(ctx, sop.ForWriting, time.Minute, nil)
+		var sc *txk.Script
+		if len(tx.rival) > 0 {
+			sc = txk.NewScript(e.Canon) // records the backend calls: the number of commit rounds is read off the log writes
+		}
+		t, err := e.NewTxn(ctx, sop.ForWriting, time.Minute, sc)
 		if err != nil {
 			return err
 		}
@@ -325,6 +380,14 @@ func (r *runner) runCase(c caseSpec) error {
 		}
 		var applied []memop
 		effAdds, effUpds, effRms, viaOther, viaOtherAdded := 0, 0, 0, 0, 0
+		keyOnly := 0
+		before := map[int]persistx.Val{} // committed contents when this transaction began
+		for k, x := range ref.committed {
+			before[k] = x
+		}
+		newValueKeys, keyOnlyKeys := map[int]bool{}, map[int]bool{}
+		written := map[int][]string{} // per key: the values this transaction wrote, in order ("tok:len")
+		retries := 0
 		addedHere := map[int]bool{}
 		for _, o := range tx.ops {
 			var ok bool
@@ -339,13 +402,29 @@ func (r *runner) runCase(c caseSpec) error {
 				ok, oerr = b.Upsert(ctx, o.key, o.val.Real())
 			case "rm":
 				ok, oerr = b.Remove(ctx, o.key)
+			case "upk":
+				ok, oerr = b.UpdateKey(ctx, o.key)
+			case "gupk":
+				if ok, oerr = b.Find(ctx, o.key, false); ok && oerr == nil {
+					if _, gerr := b.GetCurrentValue(ctx); gerr != nil {
+						// the value does not load inside the writer (its blob is gone: an earlier finding of this case, already
+						// reported by the cold reader's oracle): the failed read ends the transaction, the case is cut here
+						s.Hit("gupk_value_unreadable_case_cut")
+						t.T.Rollback(ctx)
+						if nontrivial {
+							s.Nontrivial()
+						}
+						return nil
+					}
+					ok, oerr = b.UpdateCurrentKey(ctx, o.key)
+				}
 			}
 			if oerr != nil {
 				return fmt.Errorf("case %d txn %d %v: %w", s.CaseNo, ti, o, oerr)
 			}
 			evs := spy.Take()
 			line := fmt.Sprintf("%s %d", o.kind, o.key)
-			if o.kind != "rm" {
+			if o.kind != "rm" && o.kind != "upk" && o.kind != "gupk" {
 				line += fmt.Sprintf(" %d %d", o.val.Tok, o.val.Len())
 			}
 			if len(evs) > 0 {
@@ -355,13 +434,16 @@ func (r *runner) runCase(c caseSpec) error {
 			s.Hit("op:" + o.kind + ":" + b01(ok))
 			applied = append(applied, memop{o, ok})
 			// the specification's answer for this operation
-			want := map[string]bool{"add": !existed, "upd": existed, "ups": true, "rm": existed}[o.kind]
+			want := map[string]bool{"add": !existed, "upd": existed, "ups": true, "rm": existed, "upk": existed, "gupk": existed}[o.kind]
 			if ok != want {
 				sig := "C19/op-result-deviates-from-map"
 				if o.kind == "rm" && existed && !ok {
 					sig = "C19/remove-false-on-existing-key"
 				}
 				s.Fail(sig, "an operation's reported result differs from the map specification (B-tree layer, C17)", fmt.Sprintf("txn %d %s %d: got %v want %v", ti, o.kind, o.key, ok, want))
+			}
+			if ok && (o.kind == "add" || o.kind == "upd" || o.kind == "ups") {
+				written[o.key] = append(written[o.key], fmt.Sprintf("%d:%d", o.val.Tok, o.val.Len()))
 			}
 			if ok {
 				switch o.kind {
@@ -372,10 +454,18 @@ func (r *runner) runCase(c caseSpec) error {
 				case "upd":
 					work[o.key] = o.val
 					effUpds++
+					newValueKeys[o.key] = true
+				case "upk", "gupk":
+					keyOnlyKeys[o.key] = true
+					// the value is not replaced; the item is tracked as updated
+					effUpds++
+					keyOnly++
+					s.Hit("key_only_update:" + o.kind)
 				case "ups":
 					work[o.key] = o.val
 					if existed {
 						effUpds++
+						newValueKeys[o.key] = true
 					} else {
 						effAdds++
 						addedHere[o.key] = true
@@ -402,10 +492,96 @@ func (r *runner) runCase(c caseSpec) error {
 		spy.Remove(t, storeName)
 		tracked, _ := common.VerifC19Tracked(t.P, storeName)
 		effective := effAdds+effUpds+effRms > 0
+		if len(tx.rival) > 0 {
+			// the rival: begins, adds its keys, commits — while this transaction is open
+			s.Op("park", "ok")
+			rt, err := e.NewTxn(ctx, sop.ForWriting, time.Minute, nil)
+			if err != nil {
+				return err
+			}
+			if err := rt.T.Begin(ctx); err != nil {
+				return err
+			}
+			rb, err := txk.OpenBtree[int, string](ctx, rt, storeName)
+			if err != nil {
+				return err
+			}
+			rspy := &persistx.Spy{}
+			if !rspy.Install(rt, storeName) {
+				return fmt.Errorf("cannot install tracker spy (rival)")
+			}
+			s.Op("begin", "ok")
+			for _, rk := range tx.rival {
+				rv := persistx.Val{Tok: 7000 + rk, Size: 8}
+				ok, err := rb.Add(ctx, rk, rv.Real())
+				if err != nil || !ok {
+					return fmt.Errorf("rival add %d: %v %v", rk, ok, err)
+				}
+				line := fmt.Sprintf("add %d %d %d", rk, rv.Tok, rv.Len())
+				if evs := rspy.Take(); len(evs) > 0 {
+					line += " ev " + strings.Join(evs, " ")
+				}
+				s.Op(line, "1")
+				ref.committed[rk] = rv
+				work[rk] = rv // what this transaction will have merged in after its conflict round
+				mem.Add(rk, rv.Real())
+			}
+			rspy.Remove(rt, storeName)
+			if err := rt.T.Commit(ctx); err != nil {
+				return fmt.Errorf("rival commit: %w", err)
+			}
+			s.Op("commit", "ok")
+			s.Op("resume", "ok")
+			s.Hit("rival_committed_while_open")
+		}
 		var end string
 		if tx.commit {
 			cerr := t.T.Commit(ctx)
-			s.Op("commit", errClass(cerr))
+			cline := "commit"
+			if sc != nil {
+				rounds := 0
+				for _, cl := range sc.Calls {
+					if cl.Name == "tlog.Add" && cl.Args == "3" { // commitTrackedItemsValues is logged once per commit round
+						rounds++
+					}
+				}
+				retries = rounds - 1
+				if rounds == 0 {
+					retries = 0
+				}
+				cline = fmt.Sprintf("commit retry=%d", retries)
+				s.Hit(fmt.Sprintf("conflict_rounds:%d", retries))
+				if tracked && retries != 1 && cerr == nil {
+					s.Fail("C19/conflict-round-not-taken", "a transaction that lost the race for its node did not go through exactly one refetch-and-merge round", fmt.Sprintf("txn %d: rounds=%d", ti, rounds))
+				}
+			}
+			if cerr != nil && sc != nil && c.pl.Active && strings.Contains(cerr.Error(), "refetchAndMergeModifications failed to find item") {
+				// actively persisted store: Update(k) gave the item a new ID, a later UpdateKey(k) tracked it under that ID; the
+				// replay of the conflict round looks that ID up in the committed tree and refuses the commit. Nothing is
+				// written (the transaction is rolled back); what the rollback leaves is not modelled: the case is cut here
+				s.Hit("conflict_round_refuses_update_then_key_update_case_cut")
+				if nontrivial {
+					s.Nontrivial()
+				}
+				return nil
+			}
+			if cerr != nil && sc != nil && damaged && strings.Contains(cerr.Error(), "no such file or directory") {
+				// the replay of the conflict round fetches (GetCurrentItem) an item whose value blob an earlier, already
+				// reported finding of this case destroyed: the commit is refused; what is left is not modelled: the case is cut
+				s.Hit("conflict_round_hits_destroyed_value_case_cut")
+				if nontrivial {
+					s.Nontrivial()
+				}
+				return nil
+			}
+			if cerr != nil {
+				msg := cerr.Error()
+				if len(msg) > 110 {
+					msg = msg[:110]
+				}
+				s.Hit("commit_error:" + msg)
+			}
+			s.Op(cline, errClass(cerr))
 			end = "commit:" + errClass(cerr)
 			if cerr == nil {
 				ref.committed = work
@@ -439,6 +615,9 @@ func (r *runner) runCase(c caseSpec) error {
 			dump = "dump-error"
 		}
 		s.Op("dump", dump)
+		if strings.Contains(dump, "=!") {
+			damaged = true
+		}
 		disk, kerr := persistx.DiskDump(ctx, e, storeName)
 		if kerr != nil {
 			disk = "disk-error"
@@ -461,6 +640,58 @@ func (r *runner) runCase(c caseSpec) error {
 		if dump != want {
 			sig := "C19/contents-mismatch"
 			switch {
+			case tx.commit && retries == 1 && onlyKeysDiffer(dump, want, func(k int, got string) bool {
+				// the key was ADDED by this transaction and updated afterwards; the cold reader sees the value of the add
+				_, had := before[k]
+				return !had && len(written[k]) > 1 && got == written[k][0]
+			}):
+				sig = "C19/update-after-add-lost-in-conflict-round"
+			case tx.commit && retries == 1 && c.pl.Active && onlyKeysDiffer(dump, want, func(k int, got string) bool {
+				// actively persisted store: the key existed, this transaction gave it a new value; the cold reader sees an
+				// EARLIER value (the committed one, or the one a previous update of this transaction wrote)
+				b, had := before[k]
+				if !had || len(written[k]) == 0 {
+					return false
+				}
+				if got == fmt.Sprintf("%d:%d", b.Tok, b.Len()) {
+					return true
+				}
+				for _, x := range written[k][:len(written[k])-1] {
+					if x == got {
+						return true
+					}
+				}
+				return false
+			}):
+				sig = "C19/active-update-lost-in-conflict-round"
+			case tx.commit && retries == 1 && onlyKeysDiffer(dump, want, func(k int, got string) bool {
+				// both of the above in one transaction
+				b, had := before[k]
+				if !had {
+					return len(written[k]) > 1 && got == written[k][0]
+				}
+				if !c.pl.Active || len(written[k]) == 0 {
+					return false
+				}
+				if got == fmt.Sprintf("%d:%d", b.Tok, b.Len()) {
+					return true
+				}
+				for _, x := range written[k][:len(written[k])-1] {
+					if x == got {
+						return true
+					}
+				}
+				return false
+			}):
+				sig = "C19/update-after-add-lost-in-conflict-round"
+			case c.pl.Active && !tx.commit && keyOnly > 0 && onlyKeysDiffer(dump, want, func(k int, got string) bool {
+				return keyOnlyKeys[k] && got == "!"
+			}):
+				// actively persisted store: rolling back a transaction with key-only updates deleted the COMMITTED value blobs
+				sig = "C19/active-rollback-after-key-only-update-deletes-committed-value"
+			case tx.commit && tracked && keyOnly > 0 && strings.Contains(dump, "=!"):
+				// a live item's value no longer loads after a transaction that updated keys only
+				sig = "C19/value-unreadable-after-key-only-update"
 			case tx.commit && !tracked && c.pl.Active && effective && viaOtherAdded == 0 && strings.Contains(dump, "=!"):
 				sig = "C19/active-remove-only-commit-skipped-value-blob-deleted"
 			case tx.commit && !tracked && c.pl.Active && effective && viaOtherAdded == 0:
@@ -481,6 +712,43 @@ func (r *runner) runCase(c caseSpec) error {
 		s.Nontrivial()
 	}
 	return nil
+}
+
+// onlyKeysDiffer: the two dumps ("count=n k=tok:len …") have the same keys and differ exactly on keys for which f holds
+func onlyKeysDiffer(got, want string, f func(k int, got string) bool) bool {
+	parse := func(d string) map[int]string {
+		m := map[int]string{}
+		for _, w := range strings.Fields(d) {
+			kv := strings.SplitN(w, "=", 2)
+			if len(kv) != 2 || kv[0] == "count" {
+				continue
+			}
+			k, err := strconv.Atoi(kv[0])
+			if err != nil {
+				return nil
+			}
+			m[k] = kv[1]
+		}
+		return m
+	}
+	g, w := parse(got), parse(want)
+	if g == nil || w == nil || len(g) != len(w) {
+		return false
+	}
+	n := 0
+	for k, gv := range g {
+		wv, ok := w[k]
+		if !ok {
+			return false
+		}
+		if gv != wv {
+			if !f(k, gv) {
+				return false
+			}
+			n++
+		}
+	}
+	return n > 0
 }
 
 // resync makes the references equal to what the cold reader saw (unreadable values get token 0), so that one
